@@ -24,6 +24,7 @@ mod p11;
 mod p16;
 mod p15;
 mod p14b;
+mod p17;
 // MODULES (keep this list and the two dispatch tables below in sync)
 
 use std::io::{self, BufRead, Write, BufWriter};
@@ -46,6 +47,7 @@ pub fn dispatch_exec(op: &str, a: &[i64]) -> Option<String> {
   if let Some(r) = p16::exec(op, a) { return r; }
   if let Some(r) = p15::exec(op, a) { return r; }
   if let Some(r) = p14b::exec(op, a) { return r; }
+  if let Some(r) = p17::exec(op, a) { return r; }
   // DISPATCH-EXEC
   Some("bad-op".to_string())
 }
@@ -69,6 +71,7 @@ pub fn dispatch_enum(name: &str, args: &[String], w: &mut dyn Write) -> bool {
   if p16::run_enum(name, args, w) { return true; }
   if p15::run_enum(name, args, w) { return true; }
   if p14b::run_enum(name, args, w) { return true; }
+  if p17::run_enum(name, args, w) { return true; }
   // DISPATCH-ENUM
   false
 }
